@@ -409,6 +409,9 @@ impl Wake for Flag {
 
 pub type CallFut = Pin<Box<dyn Future<Output = String>>>;
 
+/// how many times one `poll` step re-polls a future that woke itself during the poll
+pub const SELF_WAKE_ROUNDS: usize = 8;
+
 /// The middleware's call future, held (not dropped) after it has resolved: it lives until the caller's
 /// slot is dropped — at once by default, or at a later `release` op when the caller keeps finished futures.
 pub struct Held<F: Future> {
@@ -539,6 +542,7 @@ impl Callers {
         let waker = Waker::from(slot.flag.clone());
         let mut cx = Context::from_waker(&waker);
         let (coop, burn_now) = (slot.coop, slot.burn && !slot.polled);
+        let flag = slot.flag.clone();
         let r = catch_unwind(AssertUnwindSafe(|| {
             if burn_now {
                 burn_budget(&mut cx);
@@ -546,7 +550,25 @@ impl Callers {
                     return Poll::Ready(v);
                 }
             }
-            poll_slot(&mut slot.fut, &mut cx, coop)
+            // A future that wakes itself while it is being polled (yield_now, an exhausted cooperative budget) is
+            // polled again by an executor without any time passing: one `poll` step runs it until it is pending
+            // without having woken itself (bounded: a future that always wakes itself stays pending).
+            let mut rounds = 0;
+            loop {
+                flag.0.store(false, Ordering::SeqCst);
+                match poll_slot(&mut slot.fut, &mut cx, coop) {
+                    Poll::Ready(v) => return Poll::Ready(v),
+                    Poll::Pending => {
+                        rounds += 1;
+                        if !flag.0.load(Ordering::SeqCst) || rounds >= SELF_WAKE_ROUNDS {
+                            return Poll::Pending;
+                        }
+                        let w: Vec<u64> = std::mem::take(&mut *flag.1.lock().unwrap_or_else(|e| e.into_inner()));
+                        let ws: Vec<String> = w.iter().map(|x| x.to_string()).collect();
+                        log_raw(format!("#wake {} {}", c, ws.join(",")));
+                    }
+                }
+            }
         }));
         let was_polled = slot.polled;
         slot.polled = true;
